@@ -119,6 +119,18 @@ func decorate(it *astisub.Item, k int) *astisub.Item {
 	return it
 }
 
+// listSize draws a list length: mostly small (0..small), now and then long, now and then right at the sizes where a
+// size-dependent code path would switch (insertion sort -> quick sort at 12, chunking or searching at 64/256/1024)
+func listSize(r *fw.Rand, small int) int {
+	switch r.Intn(12) {
+	case 0:
+		return r.Range(small, 10*small)
+	case 1:
+		return fw.Pick(r, []int{11, 12, 13, 14, 63, 64, 65, 127, 128, 129, 255, 256, 257, 511, 512, 513, 1023, 1024, 1025})
+	}
+	return r.Intn(small + 1)
+}
+
 // someMetadata gives a list the metadata of the format it may have come from (frame-based STL, TTML, WebVTT with a
 // timestamp map, SSA, teletext: none at all): the timing transformations are about cues only
 func someMetadata(sub *astisub.Subtitles, k int) {
@@ -140,9 +152,10 @@ func someMetadata(sub *astisub.Subtitles, k int) {
 	}
 }
 
-// prewarm gives the list a past: with the cues parked on 0,1,2,.. (already ordered, nothing touching) it is ordered,
-// fragmented with a period beyond the end and unfragmented - none of which changes anything - and then the cues get
-// their real times back through the public fields. What a later call does must depend on the list as it is now.
+// prewarm gives the list a past: with the cues parked on [0,1) [3,4) [6,7) .. (already ordered, nothing touching) it is
+// ordered, fragmented with a period beyond the end, unfragmented, shifted forth and back, forced to a duration beyond
+// the end and corrected with the identity map - none of which changes anything - and then the cues get their real times
+// back through the public fields. What a later call does must depend on the list as it is now.
 func prewarm(sub *astisub.Subtitles) {
 	type se struct{ s, e time.Duration }
 	save := make([]se, len(sub.Items))
@@ -154,6 +167,10 @@ func prewarm(sub *astisub.Subtitles) {
 	sub.Order()
 	sub.Fragment(time.Duration(3*n + 7))
 	sub.Unfragment()
+	sub.Add(5)
+	sub.Add(-5)
+	sub.ForceDuration(time.Duration(3*n+7), false)
+	sub.ApplyLinearCorrection(0, 0, time.Second, time.Second)
 	sub.Order()
 	if len(sub.Items) != n {
 		panic("prewarm changed the number of cues")
